@@ -25,7 +25,7 @@ def load_props():
 def main():
     ap = argparse.ArgumentParser()
     ap.add_argument("pid")
-    ap.add_argument("--tier", default=os.environ.get("VERIF_TIER", "quick"))
+    ap.add_argument("--tier", default=os.environ.get("VERIF_TIER", "quick"), choices=["quick", "thorough"])
     ap.add_argument("--replay")
     args = ap.parse_args()
     pid, tier = args.pid, args.tier
